@@ -304,6 +304,18 @@ def run(ctx):
             rf = "%s/r%d.%s" % (work, i, fmt)
             _io_reader_file(fmt, rf, L, x, v, f)
             items.append((("gread", fmt, i), ["gread " + rf]))
+    # generic-container overloads of the xyz/pdb classes (atoms in bohr) and csg_boltzmann's table
+    cont_inputs = [(125.0, 250.0, 375.0)] + [tuple(float(rng.randint(80, 400)) for _ in range(3)) for _ in range(nrand // 8)]
+    for i, xyz in enumerate(cont_inputs):
+        items.append((("xyzcw", i), ["xyzcw %s/c%d %r %r %r" % ((work, i) + xyz)]))
+        with open("%s/cr%d.xyz" % (work, i), "w") as o:
+            o.write("2\ncontainer frame\nC %r %r %r\nH %r %r %r\n" % (tuple(c / 64.0 for c in xyz) + tuple(-c / 32.0 for c in xyz)))
+        items.append((("xyzcr", i), ["xyzcr %s/cr%d.xyz" % (work, i)]))
+    boltz_inputs = [(10, 3), (7, 2)] + [(rng.randint(5, 40), rng.randint(1, 4)) for _ in range(nrand // 8)]
+    for i, (n1, n2) in enumerate(boltz_inputs):
+        # ONE TabulatedPotential object: T = 300, then 450 on the same object
+        items.append((("boltz", i), ["boltznew %d %d" % (n1, n2), "boltztab %s/u%da.txt 300 5" % (work, i),
+                                     "boltztab %s/u%db.txt 450 5" % (work, i)]))
     items.append(("exprs", ["exprs"]))
     for r in elements:
         items.append((("rad", r["z"]), ["radii %s" % r["sym"]]))
@@ -391,6 +403,56 @@ def run(ctx):
                 if p[0] == "gobs":
                     ioobs.setdefault("%sreader_%s" % (fname, IO_Q[p[1]]), []).extend(
                         float(o) / g for o, g in zip(p[2:5], given[p[1]]))
+    # generic-container overloads: file is Angstrom, atoms are bohr
+    ncont = 0
+    for i, xyz in enumerate(cont_inputs):
+        given = list(xyz) + [-2 * c for c in xyz]
+        got = lines(("xyzcw", i))
+        if not got or got[0] != "ok":
+            violation("io:xyzwriter_atoms:exception", "container overload of XYZWriter/PDBWriter failed: %s" % got, {"input": xyz})
+        else:
+            ctx.traces += 1
+            ls = open("%s/c%d.xyz" % (work, i)).read().splitlines()
+            vals = [float(t) for l in ls[2:4] for t in l.split()[1:4]]
+            ioobs.setdefault("xyzwriter_pos_atoms", []).extend(o / g for o, g in zip(vals, given))
+            ls = [l for l in open("%s/c%d.pdb" % (work, i)).read().splitlines() if l.startswith("ATOM")]
+            vals = [float(l[a:a + 8]) for l in ls for a in (30, 38, 46)]
+            ioobs.setdefault("pdbwriter_pos_atoms", []).extend(o / g for o, g in zip(vals, given))
+        got = lines(("xyzcr", i))
+        if [ln for ln in got if ln.startswith("exc")] or not got:
+            violation("io:xyzreader_atoms:exception", "XYZReader::ReadFile(container) failed: %s" % got, {"input": xyz})
+            continue
+        ctx.traces += 1
+        infile = [c / 64.0 for c in xyz] + [-c / 32.0 for c in xyz]
+        for tag, place in (("atoms", "xyzreader_pos_atoms"), ("top", "xyzreader_pos")):
+            vals = [float(t) for ln in got if ln.split()[:2] == ["gobs", tag] for t in ln.split()[2:5]]
+            if len(vals) != 6:
+                violation("io:xyzreader_atoms:exception", "expected two atoms via %s overload, got %s" % (tag, got), {"input": xyz})
+                continue
+            ncont += 1
+            ioobs.setdefault(place, []).extend(o / g for o, g in zip(vals, infile))
+    # csg_boltzmann: U = -kB T ln p (kJ/mol); the thermal-energy constant seen in populated and in empty bins
+    nboltz = 0
+    for i, (n1, n2) in enumerate(boltz_inputs):
+        got = results.get(("boltz", i), [[], [], []])
+        if ("boltz", i) in crashes or len(got) != 3:
+            continue
+        for T, rows in ((300.0, got[1]), (450.0, got[2])):
+            tab = [[float(t) for t in ln.split()[1:4]] for ln in rows if ln.startswith("brow")]
+            exc = [ln for ln in rows if ln.startswith("exc")]
+            if exc or len(tab) != 5:
+                violation("boltzmann:table", "csg_boltzmann 'tab' failed or wrote %d rows: %s" % (len(tab), exc or rows[:2]),
+                          {"n1": n1, "n2": n2, "T": T})
+                continue
+            ctx.traces += 1
+            lnr = math.log(float(n1) / n2)
+            # bins 0 (1.0 nm, n1 samples, the maximum -> 0) and 4 (2.0 nm, n2 samples); 1..3 have no sample
+            if tab[0][1] != 0.0:
+                violation("boltzmann:table", "most populated bin is not the zero of the potential: %s" % tab, {"T": T})
+            ioobs.setdefault("boltzmann_populated", []).append(tab[4][1] / (T * lnr))
+            for k in (1, 2, 3):
+                ioobs.setdefault("boltzmann_empty", []).append(tab[k][1] / (T * lnr))
+            nboltz += 1
     if os.environ.get("C20_DEBUG"):
         vlib.log("ioobs", {k: v[:6] for k, v in ioobs.items()})
     spec_io = {r["terms"][0]["p"]["a"] for r in obs if r["kind"] == "value" and r["terms"][0]["p"]["t"] == "io"}
@@ -403,7 +465,8 @@ def run(ctx):
                       {"place": place, "observed": vs[:12]})
             continue
         # gro prints 3/4 decimals, pdb 3, xyz 5: the inputs are multiples of 1/8 with |value| >= 0.125
-        if max(abs(v / ref - 1.0) for v in vs) > 2e-6:
+        # pdb prints 3 decimals of numbers >= 40
+        if max(abs(v / ref - 1.0) for v in vs) > (2e-5 if place == "pdbwriter_pos_atoms" else 2e-6):
             violation("uniform:io:%s" % place, "factor applied by %s is not uniform over components/frames/signs: %s"
                       % (place, sorted(set(vs))[:4]), {"place": place, "observed": vs[:12]})
         val["io:" + place] = ref
@@ -459,12 +522,13 @@ def run(ctx):
             if not (rng_["polar"][0] <= g("polarizability") * 1e6 <= rng_["polar"][1]):
                 violation("element:%s:polarizability-range" % sym, "polarizability %r nm^3 outside %s 1e-6 nm^3: wrong "
                           "unit?" % (g("polarizability"), rng_["polar"]), r)
-    for place in ("covrad_bohr_per_ang", "covrad_nm_per_ang"):
+    for place in ("covrad_bohr_per_ang", "covrad_nm_per_ang", "boltzmann_populated", "boltzmann_empty"):
         vs = ioobs.get(place, [])
         if not vs:
-            raise vlib.InfraError("no covalent radius observed (vacuity guard)")
-        if max(abs(v / vs[0] - 1.0) for v in vs) > 1e-12:
-            violation("uniform:expr:%s" % place, "getCovRad unit factor differs between elements: %s" % sorted(set(vs))[:4],
+            raise vlib.InfraError("nothing observed for %s (vacuity guard)" % place)
+        # the table file carries 6 significant digits
+        if max(abs(v / vs[0] - 1.0) for v in vs) > (1e-12 if place.startswith("covrad") else 2e-5):
+            violation("uniform:expr:%s" % place, "%s is not one constant over elements / temperatures / bins: %s" % (place, sorted(set(vs))[:4]),
                       {"observed": vs[:12]})
         val["expr:" + place] = vs[0]
     # vacuity guards (engine side): the new layers really occurred in this run
@@ -472,8 +536,11 @@ def run(ctx):
             ("dlpoly", ("pos", "vel", "force", "box"))) for rw in ("reader", "writer") for q in qs
             if not (f in ("xyz", "pdb") and q != "pos")] + ["io:pdbreader_box"]
     missing = [k for k in need if k not in val]
+    if ncont < 2 or nboltz < 4:
+        raise vlib.InfraError("vacuity guard: container overloads (%d) / boltzmann tables (%d) not exercised" % (ncont, nboltz))
     if missing or nrad < 50 or not any(c < 0 for inp in io_inputs for vec in inp[1:] for c in vec):
         raise vlib.InfraError("vacuity guard: layers not exercised: %s (covalent radii seen: %d)" % (missing, nrad))
+    ctx.extra["layers2"] = {"container_reads": ncont, "boltzmann_tables": nboltz}
     ctx.extra["layers"] = {"io_places": len([k for k in val if k.startswith("io:")]), "covalent_radii": nrad,
                            "io_inputs": len(io_inputs)}
 
@@ -552,9 +619,10 @@ def run(ctx):
 
     # ---- 5. identity obligations ----------------------------------------------------------------------
     bad_same = []
+    bad_compose = []
     bad_alg = {}
     for r in obs:
-        if r["kind"] not in ("roundtrip", "transitive", "chain", "derived", "same"):
+        if r["kind"] not in ("roundtrip", "transitive", "chain", "derived", "same", "compose"):
             continue
         prod = 1.0
         for t in r["terms"]:
@@ -566,7 +634,10 @@ def run(ctx):
         if len({pid(t["p"]) for t in r["terms"]}) > 1:
             ctx.nontriv((r["kind"], termstr(r["terms"])))
         dev = abs(prod - 1.0)
-        if r["kind"] == "same":
+        if r["kind"] == "compose":
+            if not (dev <= TOL_REF):
+                bad_compose.append((dev, r))
+        elif r["kind"] == "same":
             a, b = pid(r["terms"][0]["p"]), pid(r["terms"][1]["p"])
             if not (dev <= TOL_REF):
                 bad_same.append((a, b, dev, r))
@@ -629,6 +700,11 @@ def run(ctx):
             continue
         violation("agree:%s~%s" % tuple(sorted((a, b))), "same quantity in two places differs by %.2e: %s=%r %s=%r" % (
             dev, a, val[a], b, val[b]), {"obligation": r, "values": {a: val[a], b: val[b]}})
+    for dev, r in bad_compose:
+        if any(pid(t["p"]) in bad_ref for t in r["terms"]):
+            continue
+        violation("compose:%s" % pid(r["terms"][0]["p"]), "overloads disagree: %s = 1%+.2e" % (termstr(r["terms"]), dev),
+                  {"obligation": r})
     for (kind, dim), lst in sorted(bad_alg.items()):
         dev, r = max(lst, key=lambda x: x[0])
         violation("algebra:%s:%s" % (kind, dim), "%d %s identities of UnitConverter %s fail; worst %s = 1%+.3e" % (
